@@ -438,6 +438,9 @@ func c02StoreKeyCandidates(name string, val []byte) []c02KeyCand {
 		}
 		i = j
 	}
+	for _, n := range []int{16, 24, 32} { // keys everybody knows
+		out = append(out, c02KeyCand{fmt.Sprintf("%d zero bytes", n), make([]byte, n)}, c02KeyCand{fmt.Sprintf("%d 0xff bytes", n), bytes.Repeat([]byte{0xff}, n)})
+	}
 	windows("key name bytes", []byte(name))
 	lead := val
 	if len(lead) > 72 {
